@@ -274,6 +274,14 @@ func (q *PathQuery) From(start ssa.Instruction) []pathHit {
 			if q.EdgeBarrier != nil && q.EdgeBarrier(b, si) {
 				continue
 			}
+			if q.LoopExit != nil && q.LoopExit(b, s) {
+				h := pathHit{b.Instrs[len(b.Instrs)-1], via}
+				if !hitSeen[h] {
+					hitSeen[h] = true
+					hits = append(hits, h)
+				}
+				continue
+			}
 			k := key{s, b}
 			if seen[k] {
 				continue
